@@ -1,10 +1,12 @@
 import Driver.Common
 import IoraModel.Model.TimerService
+import IoraModel.Model.TimerSys
+import IoraModel.Model.SteadyTimer
 namespace Iora.Driver.Tsvc
 open Iora Iora.Tsvc Iora.Driver
 
 inductive Kind where
-  | normal | gate | cancels (j : Nat)
+  | normal | gate | cancels (j : Nat) | throws
 
 /-- where the loop thread is: parked in `epoll_wait`; blocked in a gate handler of the batch collected after `epoll_wait` or of the
 exit-branch batch; out of `runLoop` (waiting to be joined); joined -/
@@ -32,6 +34,16 @@ structure St where
   sown : Bool := false
   sddl : Int := 0
   spos : String := "none"
+  /-- second layer (Model/TimerSys.lean): timerfd expiry, eventfd readable, eventfd open, `LifecycleState::Reset` -/
+  armed : Option Int := none
+  poked : Bool := false
+  fdOpen : Bool := true
+  isReset : Bool := false
+  /-- the racer thread (`rsched`): parked before its locked section with this time point -/
+  racer : Option Int := none
+  /-- SteadyTimer layer (Model/SteadyTimer.lean) -/
+  arms : List (Nat × Steady.Sh) := []
+  tokens : Nat → Option Nat := fun _ => none
 
 def commaSep (xs : List String) : String := if xs.isEmpty then "-" else ",".intercalate xs
 
@@ -40,16 +52,27 @@ def insertBy {α : Type} (key : α → Nat) (x : α) : List α → List α
   | y :: ys => if key x < key y then x :: y :: ys else y :: insertBy key x ys
 def sortBy {α : Type} (key : α → Nat) (l : List α) : List α := l.foldr (insertBy key) []
 
-def showState (s : Svc) : String :=
+/-- the `poke()` a client call owes after its locked section is performed at once (same thread, same op) -/
+def pk (st : St) (pre : Svc) (op : Tsvc.Op) (out : Tsvc.Out) : St :=
+  if Tsys.owes pre op out > 0 && st.fdOpen then { st with poked := true } else st
+
+def showState0 (s : Svc) : String :=
   let hp := commaSep (s.heap.map (fun x => s!"{x.tp}:{x.id}"))
   let rc := commaSep ((sortBy (·.id) s.records).map (fun r => s!"{r.id}:{r.tp}:{bit r.canceled}"))
   let pr := commaSep ((sortBy (·.id) s.periodic).map (fun p => s!"{p.id}:{p.interval}:{p.next}:{bit p.canceled}"))
   let lf := match s.life with | .running => "R" | .draining => "D" | .stopped => "S"
   s!"heap={hp} rec={rc} per={pr} exec={s.executing} acc={bit s.accepting} life={lf} run={bit s.running}"
 
+def showState (st : St) : String :=
+  let a := match st.armed with | some x => toString x | none => "-"
+  let base := showState0 st.s
+  let base := if st.isReset then base.replace "life=S" "life=Z" else base
+  s!"{base} arm={a} poke={bit (st.poked && st.fdOpen)}"
+
 def parseKind (k : String) : Option Kind :=
   if k = "n" then some .normal
   else if k = "g" then some .gate
+  else if k = "t" then some .throws
   else if k.startsWith "x" then (k.drop 1).toNat?.map .cancels
   else none
 
@@ -58,25 +81,47 @@ def kindOf (st : St) (id : Nat) : Kind :=
   | some (_, k) => k
   | none => .normal
 
-/-- the loop thread runs collected handlers until the list is empty or a gate handler blocks -/
-def runHandlers (st : St) : Nat → Svc → List String → Svc × List String
-  | 0, s, ev => (s, ev)
-  | f + 1, s, ev =>
-    let r := hstart s
-    match r.2 with
-    | .none => (r.1, ev)
-    | .skipped _ => runHandlers st f r.1 ev
+/-- what the loop thread's handler run leaves behind: service state, events, a `poke()` was performed (handler kind `x` calls
+`cancel`), the SteadyTimer arms -/
+structure RH where
+  s : Svc
+  ev : List String
+  pk : Bool := false
+  arms : List (Nat × Steady.Sh)
+
+/-- the loop thread runs collected handlers until the list is empty or a gate handler blocks; a record that is a SteadyTimer arm goes
+through the wrapper (`Steady.wrapperStart`): the user's handler (events, gate, cancel) runs only if the wrapper won the arm -/
+def runHandlers (st : St) : Nat → RH → RH
+  | 0, r => r
+  | f + 1, r =>
+    let h0 := hstart r.s
+    match h0.2 with
+    | .none => { r with s := h0.1 }
+    | .skipped _ => runHandlers st f { r with s := h0.1 }
     | .started h =>
-      let ev1 := ev ++ [s!"s{h.id}"]
+      let w := Steady.wrapperStart r.arms h.id
+      if !w.2 then runHandlers st f { r with s := hend h0.1, arms := w.1 }
+      else
+      let ev1 := r.ev ++ [s!"s{h.id}"]
       match kindOf st h.id with
-      | .gate => (r.1, ev1)
-      | .normal => runHandlers st f (hend r.1) (ev1 ++ [s!"e{h.id}"])
+      | .gate => { r with s := h0.1, ev := ev1, arms := w.1 }
+      | .normal => runHandlers st f { r with s := hend h0.1, ev := ev1 ++ [s!"e{h.id}"], arms := w.1 }
+      | .throws => runHandlers st f { r with s := hend h0.1, ev := ev1 ++ [s!"e{h.id}"], arms := w.1 }
       | .cancels j =>
-        let c := cancel r.1 j
-        runHandlers st f (hend c.1) (ev1 ++ [s!"c{j}={bit c.2}", s!"e{h.id}"])
+        let c := cancel h0.1 j
+        let p := Tsys.owes h0.1 (.cancel j) (.bool c.2) > 0
+        runHandlers st f { s := hend c.1, ev := ev1 ++ [s!"c{j}={bit c.2}", s!"e{h.id}"], pk := r.pk || p, arms := w.1 }
+
+def rh0 (st : St) (s : Svc) (ev : List String) : RH := { s := s, ev := ev, arms := st.arms }
+
+/-- fold the handler run back into the driver state -/
+def absorb (st : St) (r : RH) : St :=
+  { st with s := r.s, arms := r.arms, poked := if r.pk && st.fdOpen then true else st.poked }
 
 /-- `stop()` after its drain part: the flag section, `_running = false`, `poke`, then it sits in `_thread.join()` -/
-def stopTail (st : St) : St := { st with s := stopHalt (stopFlag st.s), sown := false, spos := "join" }
+def stopTail (st : St) : St :=
+  let s1 := stopFlag st.s
+  pk { st with s := stopHalt s1, sown := false, spos := "join" } s1 .stopHalt .none
 
 /-- every helper thread re-evaluates after every op (the harness forces a spurious wake-up there).  A waiting drain: predicate true ⇒
 it returns success; else deadline reached ⇒ it times out and runs the restore section (a drainer started with `park` is held just
@@ -98,7 +143,8 @@ def settle (st : St) : St :=
       else st1
     else st1
   if st2.sact && st2.spos = "join" && st2.s.exited then
-    { st2 with s := (stopFinish st2.s).1, spos := "ok", lpos := .gone }
+    { st2 with s := (stopFinish st2.s).1, spos := "ok", lpos := .gone,
+               fdOpen := if Tsys.closesFd .stopFinish (.bool (stopFinish st2.s).2) then false else st2.fdOpen }
   else st2
 
 /-- an op's answer: `\x01` marks where the state is printed, AFTER the helper threads have settled -/
@@ -106,19 +152,39 @@ def finish (r : St × String) : St × String :=
   if r.2 = "bad-op" || !r.1.live then r
   else
     let st := settle r.1
-    (st, r.2.replace "\x01" (showState st.s))
+    (st, r.2.replace "\x01" (showState st))
 
-/-- the loop thread after the handlers of the post-`epoll_wait` batch: top of the loop; with `_running == false` the exit branch -/
-def afterExit (st : St) (s : Svc) (ev : List String) : St × List String :=
-  ({ st with s := loopExit s, lpos := .left }, ev)
+/-- the loop thread after the handlers of the post-`epoll_wait` batch: top of the loop; with `_running == false` the exit branch
+(collect, `programTimerfd(nullopt)`, handlers, leave); otherwise `programTimerfd(heapTop)` (`Tsys.armValue`) and `epoll_wait` -/
+def afterExit (st : St) (r : RH) : St × List String :=
+  ({ absorb st r with s := loopExit r.s, lpos := .left }, r.ev)
 
-def afterPost (st : St) (s : Svc) (ev : List String) : St × List String :=
+def afterPost (st : St) (r0 : RH) : St × List String :=
+  let st := absorb st r0
+  let s := r0.s
   if !s.running then
     let c := collect s st.clk true
-    let r := runHandlers st (c.2.1.length + 1) c.1 ev
-    if r.1.inflight.isSome then ({ st with s := r.1, lpos := .inExit }, r.2)
-    else afterExit st r.1 r.2
-  else ({ st with s := s, lpos := .parked }, ev)
+    let st := { st with armed := if Tsys.disarms { s := s } c.1 (.collect st.clk true) then none else st.armed }
+    let r := runHandlers st (c.2.1.length + 1) (rh0 st c.1 r0.ev)
+    if r.s.inflight.isSome then ({ absorb st r with lpos := .inExit }, r.ev)
+    else afterExit st r
+  else ({ st with s := s, lpos := .parked, armed := Tsys.armValue st.clk s.heap.head? }, r0.ev)
+
+/-- one pass of the loop after `epoll_wait` has returned: `drainEventfd`, `drainTimerfd` (an expired one-shot timerfd is disarmed),
+the locked collect, the handlers -/
+def pass (st : St) : St × String :=
+  let st := { st with poked := false, armed := if Tsys.expired st.armed st.clk then none else st.armed }
+  let c := collect st.s st.clk false
+  let r := runHandlers st (c.2.1.length + 1) (rh0 st c.1 [])
+  if r.s.inflight.isSome then ({ absorb st r with lpos := .inPost }, s!"ev={commaSep r.ev} \x01")
+  else
+    let a := afterPost st r
+    (a.1, s!"ev={commaSep a.2} \x01")
+
+def layOf (st : St) : Steady.Lay := { s := st.s, arms := st.arms, tokens := st.tokens }
+
+/-- `drain(5000)` inside `stop()`: the constant is read from the source -/
+def stopDrainNs : Int := Gen.Timer.svcStopDrainMs * 1000000
 
 def step0 (st : St) : List String → St × String
   | ["reset", a, b, c] =>
@@ -137,7 +203,7 @@ def step0 (st : St) : List String → St × String
     match tp.toInt?, parseKind k with
     | some tp, some k =>
       let r := scheduleAt st.L st.s st.clk tp
-      let st' := { st with s := r.1, kinds := (r.2, k) :: st.kinds }
+      let st' := pk { st with s := r.1, kinds := (r.2, k) :: st.kinds } st.s (.schedAt st.clk tp) (.id r.2)
       (st', s!"{r.2} \x01")
     | _, _ => (st, "bad-op")
   | ["per", iv, k] =>
@@ -145,35 +211,93 @@ def step0 (st : St) : List String → St × String
     match iv.toInt?, parseKind k with
     | some iv, some k =>
       let r := schedulePeriodic st.L st.s st.clk iv
-      let st' := { st with s := r.1, kinds := (r.2, k) :: st.kinds }
+      let st' := pk { st with s := r.1, kinds := (r.2, k) :: st.kinds } st.s (.schedPer st.clk iv) (.id r.2)
       (st', s!"{r.2} \x01")
     | _, _ => (st, "bad-op")
   | ["cancel", i] =>
     if !st.live then (st, "bad-op") else
     match i.toNat? with
-    | some i => let r := cancel st.s i; ({ st with s := r.1 }, s!"{bit r.2} \x01")
+    | some i => let r := cancel st.s i; (pk { st with s := r.1 } st.s (.cancel i) (.bool r.2), s!"{bit r.2} \x01")
     | none => (st, "bad-op")
   | ["wake"] =>
     if !st.live then (st, "bad-op") else
     if st.lpos == .gone then (st, "gone \x01") else
     if st.s.inflight.isSome then (st, "busy") else
-    let c := collect st.s st.clk false
-    let r := runHandlers st (c.2.1.length + 1) c.1 []
-    if r.1.inflight.isSome then ({ st with s := r.1, lpos := .inPost }, s!"ev={commaSep r.2} \x01")
-    else
-      let a := afterPost st r.1 r.2
-      (a.1, s!"ev={commaSep a.2} \x01")
+    pass st
+  | ["tick"] =>
+    if !st.live then (st, "bad-op") else
+    if st.lpos == .gone then (st, "gone \x01") else
+    if st.s.inflight.isSome then (st, "busy") else
+    -- `epoll_wait` returns only if the eventfd is readable or the timerfd has expired (`Tsys.wakeEnabled`)
+    if !((st.poked && st.fdOpen) || Tsys.expired st.armed st.clk) then (st, "sleep \x01") else
+    pass st
   | ["release"] =>
     if !st.live then (st, "bad-op") else
     match st.s.inflight with
     | none => (st, "idle")
     | some h =>
       let s1 := hend st.s
-      let r := runHandlers st (s1.ready.length + 1) s1 [s!"e{h.id}"]
-      if r.1.inflight.isSome then ({ st with s := r.1 }, s!"ev={commaSep r.2} \x01")
+      let r := runHandlers st (s1.ready.length + 1) (rh0 st s1 [s!"e{h.id}"])
+      if r.s.inflight.isSome then (absorb st r, s!"ev={commaSep r.ev} \x01")
       else
-        let a := if st.lpos == .inExit then afterExit st r.1 r.2 else afterPost st r.1 r.2
+        let a := if st.lpos == .inExit then afterExit st r else afterPost st r
         (a.1, s!"ev={commaSep a.2} \x01")
+  | ["svcreset"] =>
+    if !st.live then (st, "bad-op") else
+    -- mirrors `reset()`: only from Stopped (a second reset finds the state Reset)
+    if st.isReset || st.s.life != .stopped then (st, "r=refused \x01")
+    else ({ st with s := Tsys.resetSvc st.s, isReset := true, arms := [], tokens := fun _ => none }, "r=ok \x01")
+  | ["start"] =>
+    if !st.live then (st, "bad-op") else
+    if st.isReset then
+      ({ st with s := Tsys.startSvc st.s, isReset := false, armed := Tsys.armValue st.clk (Tsys.startSvc st.s).heap.head?, poked := false, fdOpen := true,
+                 lpos := .parked, sact := false, sown := false, spos := "none", kinds := [] }, "st=ok \x01")
+    else if st.s.life == .running then (st, "st=ok \x01")
+    else (st, "st=refused \x01")
+  | ["rsched", tp] =>
+    if !st.live then (st, "bad-op") else
+    match tp.toInt? with
+    | some tp =>
+      if st.racer.isSome then (st, "r=busy \x01")
+      -- the lock-free part of scheduleAt: `_accepting`, then `isValidTimeout`
+      else if !scheduleAtPre st.L st.s st.clk tp then (st, "r=0 \x01")
+      else ({ st with racer := some tp }, "r=parked \x01")
+    | none => (st, "bad-op")
+  | ["rgo"] =>
+    if !st.live then (st, "bad-op") else
+    match st.racer with
+    | none => (st, "r=notparked \x01")
+    | some tp =>
+      let r := scheduleAtLocked st.L st.s tp
+      let st' := pk { st with s := r.1, racer := none, kinds := (r.2, .normal) :: st.kinds } st.s (.schedAt st.clk tp) (.id r.2)
+      (st', s!"r={r.2} \x01")
+  | ["sat", i, tp, k] =>
+    if !st.live then (st, "bad-op") else
+    match i.toNat?, tp.toInt?, parseKind k with
+    | some i, some tp, some k =>
+      if i ≥ 8 then (st, "bad-op") else
+      let l0 := layOf st
+      -- asyncWait = cancel() (its `poke()` if the record was live), then scheduleAt
+      let c := Steady.cancel l0 i
+      let st1 : St := match Steady.getTok l0 i with
+        | some tok => pk st st.s (.cancel tok) (.bool (cancel st.s tok).2)
+        | none => st
+      let r := Steady.asyncWait st.L l0 i st.clk tp
+      let st2 := pk { st1 with s := r.1.s, arms := r.1.arms, tokens := r.1.tokens, kinds := (r.2, k) :: st.kinds } c.1.s (.schedAt st.clk tp) (.id r.2)
+      (st2, s!"{r.2} \x01")
+    | _, _, _ => (st, "bad-op")
+  | ["scancel", i] =>
+    if !st.live then (st, "bad-op") else
+    match i.toNat? with
+    | some i =>
+      if i ≥ 8 then (st, "bad-op") else
+      let l0 := layOf st
+      let r := Steady.cancel l0 i
+      let st1 : St := match Steady.getTok l0 i with
+        | some tok => pk st st.s (.cancel tok) (.bool (cancel st.s tok).2)
+        | none => st
+      ({ st1 with s := r.1.s, arms := r.1.arms, tokens := r.1.tokens }, s!"{bit r.2} \x01")
+    | none => (st, "bad-op")
   | ["inflight"] => if !st.live then (st, "bad-op") else (st, toString (liveCount st.s))
   | "drain" :: ms :: rest =>
     if !st.live || !(rest == [] || rest == ["park"]) then (st, "bad-op") else
@@ -186,6 +310,7 @@ def step0 (st : St) : List String → St × String
         if !g.2 then ({ st with s := g.1 }, "d=refused \x01")
         else
           let s2 := drainSweep g.1 st.clk (ms * 1000000)
+          let st := pk st g.1 (.drainSweep st.clk (ms * 1000000)) .none
           if drainPred s2 then ({ st with s := (drainDone s2).1 }, "d=ok \x01")
           else ({ st with s := s2, dact := true, ddl := if ms = 0 then none else some (st.clk + ms * 1000000), dres := none,
                           dpark := rest == ["park"], dparked := false, sown := false }, "d=wait \x01")
@@ -207,11 +332,12 @@ def step0 (st : St) : List String → St × String
     else if st.s.life == .stopped then ({ st with sact := true, spos := "refused" }, "s=refused \x01")
     else if st.s.life == .running then
       let g := drainGate st.s
-      let s2 := drainSweep g.1 st.clk 5000000000
+      let s2 := drainSweep g.1 st.clk stopDrainNs
+      let st := pk st g.1 (.drainSweep st.clk stopDrainNs) .none
       if drainPred s2 then
         let st' := stopTail { st with s := (drainDone s2).1, sact := true }
         (st', "s=join \x01")
-      else ({ st with s := s2, sact := true, sown := true, sddl := st.clk + 5000000000, spos := "drainwait" }, "s=drainwait \x01")
+      else ({ st with s := s2, sact := true, sown := true, sddl := st.clk + stopDrainNs, spos := "drainwait" }, "s=drainwait \x01")
     else
       let st' := stopTail { st with sact := true }
       (st', "s=join \x01")
